@@ -1,6 +1,7 @@
 import Model.C17.Block
 import Proofs.C17.Merkle
 import Proofs.C17.PowNext
+import Proofs.C17.PowGen
 namespace Btc.Block
 open Btc Btc.Merkle
 
@@ -146,5 +147,52 @@ theorem chainWork_eq : ∀ bs : List Bytes,
         fun h => hb (h b (by simp))
       rw [if_neg hb, if_neg this]
       rfl
+
+section ValidPow
+open Btc.Py Btc.Pow
+
+theorem assertValidPow_ok_iff (bits limitBits hash : Bytes) (hb : bits.length = 4) (hl : limitBits.length = 4) :
+    assertValidPow bits limitBits hash = .ok () ↔
+      (CorePow.setCompact (ofBE bits)).negative = false ∧ (CorePow.setCompact (ofBE bits)).overflow = false ∧
+      (CorePow.setCompact (ofBE bits)).value ≠ 0 ∧ (CorePow.setCompact (ofBE limitBits)).overflow = false ∧
+      (CorePow.setCompact (ofBE bits)).value ≤ (CorePow.setCompact (ofBE limitBits)).value ∧
+      ofBE hash ≤ (CorePow.setCompact (ofBE bits)).value := by
+  obtain ⟨x0, x1, x2, x3, rfl⟩ := len4 bits hb
+  obtain ⟨y0, y1, y2, y3, rfl⟩ := len4 limitBits hl
+  have hv := setCompact_value_lt x0 x1 x2 x3
+  have hw := setCompact_value_lt y0 y1 y2 y3
+  unfold assertValidPow
+  rw [is_negative_bits_core4, target_from_bits_core4, target_from_bits_core4]
+  generalize CorePow.setCompact (ofBE [x0, x1, x2, x3]) = r at *
+  generalize CorePow.setCompact (ofBE [y0, y1, y2, y3]) = l at *
+  obtain ⟨rv, rn, ro⟩ := r
+  obtain ⟨lv, ln, lo⟩ := l
+  simp only at hv hw ⊢
+  cases rn
+  · cases ro
+    · simp only [Bool.false_eq_true, if_false, ofBE_beBytes, Nat.mod_eq_of_lt hv, true_and]
+      by_cases h0 : rv = 0
+      · simp [h0]
+      · simp only [h0, if_false, ne_eq, not_false_eq_true, true_and]
+        cases lo
+        · simp only [Bool.false_eq_true, if_false, ofBE_beBytes, Nat.mod_eq_of_lt hw, true_and]
+          by_cases ha : rv > lv
+          · simp only [ha, if_true]
+            constructor
+            · intro h; cases h
+            · rintro ⟨h, _⟩; omega
+          · simp only [ha, if_false]
+            by_cases hh : ofBE hash > rv
+            · simp only [hh, if_true]
+              constructor
+              · intro h; cases h
+              · rintro ⟨_, h⟩; omega
+            · simp only [hh, if_false, true_iff]
+              omega
+        · simp
+    · simp
+  · simp
+
+end ValidPow
 
 end Btc.Block
